@@ -7,7 +7,7 @@
     universally quantified functions; their encoders only have to satisfy the round-trip hypotheses
     written in each statement (instantiated at the end of the file). *)
 From Coq Require Import List ZArith String Lia.
-From Thunder Require Import Lib.Json Args.Model Args.Spec Args.Codec Args.Proofs Args.ProofsReject Args.ProofsInst Args.ProofsSubst Args.ProofsTotal Args.ProofsDoc Gen.ArgParsers Args.Table.
+From Thunder Require Import Lib.Json Args.Model Args.Spec Args.Codec Args.Proofs Args.ProofsReject Args.ProofsInst Args.ProofsSubst Args.ProofsTotal Args.ProofsDoc Args.ProofsPaginated Gen.ArgParsers Args.Table.
 Import ListNotations.
 Local Open Scope Z_scope.
 
@@ -103,6 +103,25 @@ Theorem selections_independent :
                   parse_all b64 tdec xdec t (doc_fields fuel p) = Err EArgs).
 Proof. exact ProofsDoc.selections_independent. Qed.
 Print Assumptions selections_independent.
+
+(** Paginated fields (pagination.go buildPaginatedArgParser): once the connection arguments (first, last,
+    after, ...) parse, the resolver's own argument struct is parsed exactly as on an ordinary field - all the
+    theorems above apply, in particular a missing required argument is refused and optional ones arrive
+    nil / zero even when no own argument was sent - provided no own argument is named like a connection
+    argument; a connection argument that does not parse is the request's error. *)
+Theorem paginated_is_struct_parser :
+  forall b64 tdec xdec fs o c,
+    (forall n, In n (map fst fs) -> mem_str n conn_names = false) ->
+    parse b64 tdec xdec conn_ty (VObj o) = Ok c ->
+    parse_paginated b64 tdec xdec (TStruct fs) (VObj o) = parse b64 tdec xdec (TStruct fs) (VObj o).
+Proof. exact ProofsPaginated.paginated_is_struct_parser. Qed.
+Print Assumptions paginated_is_struct_parser.
+
+Theorem paginated_bad_connection_arg :
+  forall b64 tdec xdec t o e,
+    parse b64 tdec xdec conn_ty (VObj o) = Err e -> parse_paginated b64 tdec xdec t (VObj o) = Err e.
+Proof. exact ProofsPaginated.paginated_bad_connection_arg. Qed.
+Print Assumptions paginated_bad_connection_arg.
 
 (** End to end for one field: Parse (defaults, argsToJson) followed by the ParseArguments call of
     PrepareQuery hands the resolver exactly the struct that was written as literals ... *)
